@@ -400,6 +400,320 @@ fn all_combos(seed: u64) -> Vec<Prior> {
     v
 }
 
+
+// ---------------------------------------------------------------------------------------------------------
+// "written for other data", for real: the data files the tool reads are replaced between starts.
+//
+// The harness profile is built with debug assertions, so the tool reads `<repo>/db/*` at run time (rust-embed);
+// every child process gets a private mount namespace (`unshare -m`) in which a directory prepared by the harness
+// is bind-mounted over `<repo>/db`.  Nothing in the repository is touched.  The oracle is the property's own: a
+// fresh in-memory database started under the same data.
+
+/// One set of data files.
+#[derive(Clone, Debug, Serialize, Deserialize, PartialEq, Eq, Hash)]
+pub enum DataSet {
+    Shipped,
+    /// The `nth` constant with a non-zero value in `file` gets another value (first limb of the numerator + 256).
+    Changed { file: String, nth: usize, keep_size: bool, keep_mtime: bool },
+}
+
+#[derive(Clone, Debug, Serialize, Deserialize)]
+pub struct DataHistory {
+    /// data set in place at each start
+    pub starts: Vec<DataSet>,
+    /// a crash point for the first start that meets changed data (followed by one more start under the same data)
+    pub crash: Option<String>,
+}
+
+fn namespaces_available() -> bool {
+    static A: OnceLock<bool> = OnceLock::new();
+    *A.get_or_init(|| {
+        let probe = PathBuf::from(format!("{}/build/xdg/C15-ns-{}", crate::runner::verif_root(), std::process::id()));
+        let _ = std::fs::create_dir_all(probe.join("a"));
+        let _ = std::fs::create_dir_all(probe.join("b"));
+        let _ = std::fs::write(probe.join("a/marker"), "x");
+        let ok = std::process::Command::new("unshare")
+            .arg("-m")
+            .arg("sh")
+            .arg("-c")
+            .arg("mount --bind \"$1\" \"$2\" && test -f \"$2/marker\"")
+            .arg("sh")
+            .arg(probe.join("a"))
+            .arg(probe.join("b"))
+            .output()
+            .map(|o| o.status.success())
+            .unwrap_or(false);
+        // the bind mount must not be visible outside the child's namespace
+        let leaked = probe.join("b/marker").exists();
+        let _ = std::fs::remove_dir_all(&probe);
+        ok && !leaked
+    })
+}
+
+fn gz(raw: &[u8], level: u32, comment: Option<usize>) -> Vec<u8> {
+    use std::io::Write;
+    let mut b = flate2::GzBuilder::new();
+    if let Some(n) = comment {
+        b = b.comment(vec![b'x'; n]);
+    }
+    let mut w = b.write(Vec::new(), flate2::Compression::new(level));
+    w.write_all(raw).unwrap();
+    w.finish().unwrap()
+}
+
+/// The document of `original` with the nth non-zero constant changed; `keep_size` pads (gzip comment) or trims
+/// (the description of that constant) until the compressed file has exactly the original byte size.
+fn changed_file(original: &[u8], nth: usize, keep_size: bool) -> Option<Vec<u8>> {
+    use serde_cbor::Value as C;
+    use std::io::Read;
+    let mut raw = Vec::new();
+    flate2::read::GzDecoder::new(original).read_to_end(&mut raw).ok()?;
+    let mut doc: C = serde_cbor::from_slice(&raw).ok()?;
+    let key = |s: &str| C::Text(s.to_string());
+    let mut trim = 0usize;
+    loop {
+        let mut d = doc.clone();
+        {
+            let C::Map(root) = &mut d else { return None };
+            let Some(C::Array(cs)) = root.get_mut(&key("constants")) else { return None };
+            let mut seen = 0usize;
+            let mut done = false;
+            for c in cs.iter_mut() {
+                let C::Map(c) = c else { continue };
+                let limb_ok = matches!(c.get(&key("value")), Some(C::Array(v)) if matches!(v.get(0), Some(C::Array(n)) if matches!(n.get(1), Some(C::Array(ds)) if matches!(ds.get(0), Some(C::Integer(x)) if *x >= 0 && *x < (u32::MAX as i128) - 256))));
+                if !limb_ok {
+                    continue;
+                }
+                if seen < nth {
+                    seen += 1;
+                    continue;
+                }
+                if let Some(C::Array(v)) = c.get_mut(&key("value")) {
+                    if let C::Array(n) = &mut v[0] {
+                        if let C::Array(ds) = &mut n[1] {
+                            if let C::Integer(x) = &mut ds[0] {
+                                *x += 256;
+                            }
+                        }
+                    }
+                }
+                if trim > 0 {
+                    if let Some(C::Text(t)) = c.get_mut(&key("description")) {
+                        let keep = t.chars().count().saturating_sub(trim).max(1);
+                        *t = t.chars().take(keep).collect();
+                    }
+                }
+                done = true;
+                break;
+            }
+            if !done {
+                return None;
+            }
+        }
+        let bytes = serde_cbor::to_vec(&d).ok()?;
+        if !keep_size {
+            let out = gz(&bytes, 6, None);
+            // a different size is wanted: pad by three bytes if it happens to coincide
+            return Some(if out.len() == original.len() { gz(&bytes, 6, Some(2)) } else { out });
+        }
+        for level in (1..=9).rev() {
+            let plain = gz(&bytes, level, None);
+            if plain.len() == original.len() {
+                return Some(plain);
+            }
+            if plain.len() < original.len() {
+                let padded = gz(&bytes, level, Some(original.len() - plain.len() - 1));
+                if padded.len() == original.len() {
+                    return Some(padded);
+                }
+            }
+        }
+        trim += 1;
+        if trim > 40 {
+            return None;
+        }
+    }
+}
+
+/// Directory holding the data files of `d` (prepared once, read-only afterwards).
+fn dataset_dir(d: &DataSet) -> Option<PathBuf> {
+    static DONE: OnceLock<std::sync::Mutex<std::collections::HashMap<DataSet, Option<PathBuf>>>> = OnceLock::new();
+    let m = DONE.get_or_init(Default::default);
+    let mut g = m.lock().unwrap();
+    if let Some(p) = g.get(d) {
+        return p.clone();
+    }
+    let r = reference();
+    let dir = r.work.join(format!("data-{}", g.len()));
+    let src = PathBuf::from(format!("{}/db", crate::runner::repo_root()));
+    let _ = std::fs::create_dir_all(&dir);
+    let cp = std::process::Command::new("cp").arg("-p").arg("-r").arg(format!("{}/.", src.display())).arg(&dir).output();
+    let mut ok = cp.map(|o| o.status.success()).unwrap_or(false);
+    if let DataSet::Changed { file, nth, keep_size, keep_mtime } = d {
+        ok = ok
+            && match std::fs::read(src.join(file)).ok().and_then(|orig| changed_file(&orig, *nth, *keep_size)) {
+                Some(bytes) => {
+                    let target = dir.join(file);
+                    let w = std::fs::write(&target, &bytes).is_ok();
+                    let t = if *keep_mtime {
+                        std::process::Command::new("touch").arg("-r").arg(src.join(file)).arg(&target).output().map(|o| o.status.success()).unwrap_or(false)
+                    } else {
+                        true
+                    };
+                    w && t
+                }
+                None => false,
+            };
+    }
+    let out = if ok { Some(dir) } else { None };
+    g.insert(d.clone(), out.clone());
+    out
+}
+
+fn run_probe_under(data: &Path, mode: &str, xdg: &Path, qfile: &Path, crash: Option<&str>) -> Result<Vec<String>, String> {
+    let mut cmd = std::process::Command::new("unshare");
+    cmd.arg("-m").arg("sh").arg("-c").arg("mount --bind \"$1\" \"$2\" || exit 97; shift 2; exec \"$@\"").arg("sh").arg(data).arg(format!("{}/db", crate::runner::repo_root())).arg(crate::props::c14::dbprobe_path()).arg(mode).arg(qfile);
+    cmd.env("XDG_DATA_HOME", xdg).env_remove("RUST_LOG").env_remove("ANYTHING_VERIF_CRASH");
+    if let Some(p) = crash {
+        cmd.env("ANYTHING_VERIF_CRASH", p);
+    }
+    let out = cmd.output().map_err(|e| format!("spawn failed: {}", e))?;
+    if !out.status.success() {
+        use std::os::unix::process::ExitStatusExt;
+        if let Some(sig) = out.status.signal() {
+            return Err(format!("signal: {}", sig));
+        }
+        // `exec` keeps the pid, so an abort of the probe shows as 128+6 through sh only when sh did not exec; keep both
+        if out.status.code() == Some(134) {
+            return Err("signal: 6".to_string());
+        }
+        if out.status.code() == Some(97) {
+            return Err("mount failed".to_string());
+        }
+        return Err(format!("{:?} stderr={}", out.status, String::from_utf8_lossy(&out.stderr).chars().take(300).collect::<String>()));
+    }
+    Ok(String::from_utf8_lossy(&out.stdout).lines().map(|l| l.to_string()).collect())
+}
+
+/// Answers of a fresh in-memory database under the data set (once per data set).
+fn mem_answers(d: &DataSet) -> Option<Vec<String>> {
+    static DONE: OnceLock<std::sync::Mutex<std::collections::HashMap<DataSet, Option<Vec<String>>>>> = OnceLock::new();
+    let m = DONE.get_or_init(Default::default);
+    if let Some(a) = m.lock().unwrap().get(d) {
+        return a.clone();
+    }
+    let r = reference();
+    let dir = dataset_dir(d)?;
+    let xdg = r.work.join(format!("mem-under-{}", dir.file_name().unwrap().to_string_lossy()));
+    let _ = std::fs::create_dir_all(&xdg);
+    let a = run_probe_under(&dir, "mem", &xdg, &r.qfile, None).ok();
+    m.lock().unwrap().insert(d.clone(), a.clone());
+    a
+}
+
+fn exec_data(h: &DataHistory, id: u64) -> CaseReport {
+    let r = reference();
+    let key = serde_json::to_string(h).unwrap();
+    if !namespaces_available() {
+        return CaseReport::discard(key, "mount-namespaces-unavailable");
+    }
+    let dir = r.work.join(format!("d{}", id));
+    let _ = std::fs::remove_dir_all(&dir);
+    std::fs::create_dir_all(&dir).unwrap();
+    let fail = |sig: &str, detail: Value| {
+        let _ = std::fs::remove_dir_all(&dir);
+        CaseReport::fail(key.clone(), sig, json!({"data_history": h, "detail": detail}))
+    };
+    let discard = |why: &'static str| {
+        let _ = std::fs::remove_dir_all(&dir);
+        CaseReport::discard(key.clone(), why)
+    };
+    let shipped = match mem_answers(&DataSet::Shipped) {
+        Some(a) => a,
+        None => return discard("no-reference-under-a-bind-mount"),
+    };
+    if shipped != r.answers {
+        // the bind-mounted copy of the shipped data must behave as the data in place does
+        return discard("bind-mounted-copy-behaves-differently");
+    }
+    let mut crash_pending = h.crash.clone();
+    let mut visible_change = false;
+    let mut prev: Option<&DataSet> = None;
+    for (i, d) in h.starts.iter().enumerate() {
+        let (data, expected) = match (dataset_dir(d), mem_answers(d)) {
+            (Some(a), Some(b)) => (a, b),
+            _ => return discard("data-set-could-not-be-prepared"),
+        };
+        if expected.len() != r.answers.len() {
+            return discard("reference-answer-count");
+        }
+        if let Some(p) = prev {
+            if p != d && mem_answers(p).as_ref() != Some(&expected) {
+                visible_change = true;
+            }
+        }
+        let changed_now = prev.map(|p| p != d).unwrap_or(false);
+        if changed_now {
+            if let Some(p) = crash_pending.take() {
+                match run_probe_under(&data, "open", &dir, &r.qfile, Some(&p)) {
+                    Err(s) if s.contains("signal: 6") => {}
+                    Err(s) if s == "mount failed" => return discard("mount-failed"),
+                    Err(s) => return fail("start-fails", json!({"start": i, "status": s, "crash_point": p})),
+                    Ok(_) => {} // the crash point was not reached
+                }
+            }
+        }
+        match run_probe_under(&data, "open", &dir, &r.qfile, None) {
+            Ok(answers) => {
+                if answers.len() != expected.len() {
+                    return fail("answer-count", json!({"start": i, "answers": answers.len(), "expected": expected.len()}));
+                }
+                if let Some(k) = (0..answers.len()).find(|k| answers[*k] != expected[*k]) {
+                    return fail("answers-differ-from-in-memory-after-the-data-changed", json!({"start": i, "data": d, "first_difference": k, "got": answers[k], "expected": expected[k], "differences": (0..answers.len()).filter(|k| answers[*k] != expected[*k]).count()}));
+                }
+            }
+            Err(s) if s == "mount failed" => return discard("mount-failed"),
+            Err(s) => return fail("start-fails", json!({"start": i, "status": s})),
+        }
+        prev = Some(d);
+    }
+    let _ = std::fs::remove_dir_all(&dir);
+    let mut classes = vec!["data-files-replaced"];
+    if h.crash.is_some() {
+        classes.push("data-files-replaced+crash");
+    }
+    if h.starts.iter().any(|d| matches!(d, DataSet::Changed { keep_size: true, keep_mtime: true, .. })) {
+        classes.push("data-files-replaced(same-size-and-time-stamp)");
+    }
+    CaseReport::pass(key, visible_change, classes)
+}
+
+fn data_histories(tier: crate::runner::Tier) -> Vec<DataHistory> {
+    let mut variants: Vec<DataSet> = Vec::new();
+    let files: [(&str, &[usize]); 3] = [("files.bin.gz", &[0, 1]), ("astronomics.bin.gz", &[0, 7, 200]), ("populations.bin.gz", &[0, 3, 150])];
+    for (f, nths) in files {
+        for (k, nth) in nths.iter().enumerate() {
+            if tier == crate::runner::Tier::Quick && k > 0 && f != "files.bin.gz" {
+                continue;
+            }
+            for (ks, km) in [(true, true), (true, false), (false, true), (false, false)] {
+                variants.push(DataSet::Changed { file: f.to_string(), nth: *nth, keep_size: ks, keep_mtime: km });
+            }
+        }
+    }
+    let mut hs = Vec::new();
+    for (i, v) in variants.iter().enumerate() {
+        let s = DataSet::Shipped;
+        hs.push(DataHistory { starts: vec![s.clone(), v.clone(), v.clone()], crash: None });
+        hs.push(DataHistory { starts: vec![v.clone(), s.clone(), s.clone()], crash: None });
+        let w = &variants[(i + 5) % variants.len()];
+        hs.push(DataHistory { starts: vec![v.clone(), w.clone(), w.clone(), s.clone()], crash: None });
+        let p = POINTS[i % POINTS.len()];
+        hs.push(DataHistory { starts: vec![s.clone(), v.clone(), v.clone()], crash: Some(if p == "add-document" { format!("add-document@{}", 1 + (i * 37) % 800) } else { p.to_string() }) });
+    }
+    hs
+}
+
 fn meta_is_current(dir: &Path) -> bool {
     let r = reference();
     match std::fs::read_to_string(dir.join("facts/meta.json")).ok().and_then(|t| serde_json::from_str::<Value>(&t).ok()) {
@@ -539,7 +853,7 @@ fn point(h: u64, n_docs: usize) -> String {
 }
 
 pub fn run_check(ctx: &Ctx) {
-    ctx.set_rule("fault histories = prior directory state (absent, complete, other version with current/stale hash, written by a neighbouring release (13 version strings next to the current one x index laid out with another tokenizer / other field names / not an index / other documents), other data over an index holding other documents, meta.json missing / truncated / garbage, index directory missing / empty / with its own meta.json emptied, truncated or removed / with a garbage .managed.json) x crash point (hooks: index opened, after delete_all_documents, after the k-th add_document, before/after commit, after reload, between creating and writing meta.json, after writing it) x 1-3 follow-up starts (each crashing at another point or completing), every start a child process calling Db::open under a private XDG_DATA_HOME and aborting at the selected point; oracle: every completing start answers the query set (every unambiguous typable fact phrase plus not-found probes) exactly like a fresh in-memory database and leaves meta.json = {current version, current hash}; after a crash that leaves meta.json claiming `current`, the next start (which will not rebuild) must still answer correctly; non-trivial = a crash between the first document and the metadata write followed by a completing start; distinct by history");
+    ctx.set_rule("fault histories = prior directory state (absent, complete, other version with current/stale hash, written by a neighbouring release (13 version strings next to the current one x index laid out with another tokenizer / other field names / not an index / other documents), other data over an index holding other documents, meta.json missing / truncated / garbage, index directory missing / empty / with its own meta.json emptied, truncated or removed / with a garbage .managed.json) x crash point (hooks: index opened, after delete_all_documents, after the k-th add_document, before/after commit, after reload, between creating and writing meta.json, after writing it) x 1-3 follow-up starts (each crashing at another point or completing), every start a child process calling Db::open under a private XDG_DATA_HOME and aborting at the selected point; oracle: every completing start answers the query set (every unambiguous typable fact phrase plus not-found probes) exactly like a fresh in-memory database and leaves meta.json = {current version, current hash}; after a crash that leaves meta.json claiming `current`, the next start (which will not rebuild) must still answer correctly; also histories in which the data files the tool reads are really replaced between starts (a constant of files/astronomics/populations gets another value; the new file with the same or another byte size, the same or a new time stamp; shipped -> changed -> changed, changed -> shipped -> shipped, changed -> other change -> shipped, and with a crash at a hook point in the first start that meets the new data), each start in a private mount namespace with the data directory bind-mounted over <repo>/db, judged against a fresh in-memory database under the same data; non-trivial = a crash between the first document and the metadata write followed by a completing start, or a data replacement that changes an answer; distinct by history");
     ctx.assume("a crash is a process abort at a hook point (files already written stay visible); torn writes inside a single write call are modelled only through truncated/garbage meta.json prior states");
     let r = reference();
     ctx.put("query_set", json!(r.queries));
@@ -629,10 +943,30 @@ pub fn run_check(ctx: &Ctx) {
     }
     let items: Vec<(u64, History)> = all.into_iter().enumerate().map(|(i, h)| (i as u64, h)).collect();
     ctx.run_enum("histories", items.len() as u64, |i| Some(items[i as usize].clone()), |(id, h)| exec(h, *id), |(_, h)| to_json(h));
+    // the data files themselves are replaced between starts (private mount namespace per child process)
+    if namespaces_available() {
+        let dh: Vec<(u64, DataHistory)> = data_histories(ctx.tier).into_iter().enumerate().map(|(i, h)| (i as u64, h)).collect();
+        // prepare every data set and its in-memory reference before the parallel part
+        for (_, h) in &dh {
+            for d in &h.starts {
+                let _ = mem_answers(d);
+            }
+        }
+        ctx.put("data_replacement_histories", json!(dh.len()));
+        ctx.run_enum("data-files-replaced", dh.len() as u64, |i| Some(dh[i as usize].clone()), |(id, h)| exec_data(h, *id), |(_, h)| json!({"data_history": h}));
+    } else {
+        ctx.assume("mount namespaces (unshare -m + bind mount) are not available here: the histories that replace the data files themselves were skipped; 'written for other data' is then only modelled by a stale hash over an index holding other documents");
+    }
     let _ = std::fs::remove_dir_all(&r.work);
 }
 
 pub fn replay(ctx: &Ctx, case: &Value) {
+    if let Some(h) = case.get("data_history") {
+        let h: DataHistory = serde_json::from_value(h.clone()).expect("data history");
+        ctx.run_list("replay", &[h], |h| exec_data(h, 0), |h| json!({"data_history": h}));
+        let _ = std::fs::remove_dir_all(&reference().work);
+        return;
+    }
     let h: History = serde_json::from_value(case.clone()).expect("replay file holds a History");
     ctx.run_list("replay", &[h], |h| exec(h, 999_999), |h| to_json(h));
     let _ = std::fs::remove_dir_all(&reference().work);
